@@ -291,4 +291,16 @@ Proof.
   destruct (lexp None t (nid K)) as [[r|]|] eqn:El; cbn [joinp] in Hq; try discriminate. inversion Hq; subst r.
   destruct (lexp_is_stmt t None (nid K) q El) as [Hc|Hx]; [discriminate|exact Hx].
 Qed.
+
+(* the query as the library asks it, for ANY node (tracer.stmt_only_has_ancestor_types): start from the node's containing statement when the
+   table has one, from the node itself otherwise *)
+Definition only_allowed_node (t : node) (k : N) (fuel : nat) : bool :=
+  only_allowed_tbl t (match cs_lookup (visit None t) k None with Some s => s | None => k end) fuel.
+
+Theorem outer_node_exact t : wf t -> NoDup (ids t) -> forall k s, cs_lookup (visit None t) k None = Some s -> forall fuel,
+  contains t s k /\ only_allowed_node t k fuel = only_allowed_lex t s fuel.
+Proof.
+  intros Hwf Hnd k s Hc fuel. pose proof (containing_stmt_contains t k s Hwf Hc) as Hcon. split; [exact Hcon|].
+  destruct Hcon as (S & HS & Hst & Hid & _). unfold only_allowed_node. rewrite Hc. subst s. apply (outer_exact t Hwf Hnd S HS Hst).
+Qed.
 End Outer.
